@@ -29,10 +29,23 @@ struct Slot {
     listed: bool,
 }
 
+/// the REAL record store of ant-networking, driven the way `SwarmDriver::handle_local_cmd` drives it
+/// (PutLocalRecord -> put_verified with the record type the driver derives; AddLocalRecordAsStored ->
+/// mark_as_stored when the harness relays the acknowledgement; RecordStoreHasKey -> contains;
+/// GetLocalRecord -> get)
+struct Real {
+    store: ant_networking::verif_hooks::UnifiedRecordStore,
+    ack_rx: mpsc::Receiver<LocalSwarmCmd>,
+    _ev_rx: mpsc::Receiver<ant_networking::NetworkEvent>,
+    dir: std::path::PathBuf,
+    keys: std::collections::BTreeSet<Vec<u8>>,
+}
+
 struct World {
     reg: Registry,
     store: BTreeMap<Vec<u8>, Slot>,
     closest: Vec<libp2p::PeerId>,
+    real: Option<Real>,
 }
 
 pub fn err_code(e: &Error) -> String {
@@ -79,7 +92,7 @@ pub fn err_code(e: &Error) -> String {
 }
 
 fn chain_cfg(v: &Value) -> ChainCfg {
-    let mut c = ChainCfg { mode: "ok".into(), valid: [true; 3], amounts: [5, 7, 11], echo: true };
+    let mut c = ChainCfg { mode: "ok".into(), valid: [true; 3], amounts: [5, 7, 11], echo: true, pending_valid: None };
     if v.is_object() {
         if let Some(m) = v.get("mode").and_then(|m| m.as_str()) {
             c.mode = m.to_string();
@@ -93,6 +106,13 @@ fn chain_cfg(v: &Value) -> ChainCfg {
             for i in 0..3 {
                 c.amounts[i] = a.get(i).and_then(|b| b.as_u64()).unwrap_or(0);
             }
+        }
+        if let Some(a) = v.get("pending_valid").and_then(|a| a.as_array()) {
+            let mut pv = [true; 3];
+            for i in 0..3 {
+                pv[i] = a.get(i).and_then(|b| b.as_bool()).unwrap_or(true);
+            }
+            c.pending_valid = Some(pv);
         }
         if let Some(e) = v.get("echo").and_then(|e| e.as_bool()) {
             c.echo = e;
@@ -120,6 +140,7 @@ struct Delivery {
     replicate_started: u64,
     chain: ChainCfg,
     rpc_calls: Vec<Vec<String>>,
+    rpc_tags: Vec<String>,
     /// store contents when this delivery started / after it was fully processed (serial runs)
     store_at_start: Option<Value>,
     store_after: Option<Value>,
@@ -128,8 +149,7 @@ struct Delivery {
 impl World {
     fn flush(&mut self, d: &mut Delivery) {
         for record in std::mem::take(&mut d.outbox) {
-            let listed = self.store.get(record.key.as_ref()).map(|s| s.listed).unwrap_or(false);
-            self.store.insert(record.key.to_vec(), Slot { value: record.value, listed });
+            self.insert(record);
         }
     }
 
@@ -153,17 +173,84 @@ impl World {
         }
     }
 
-    fn ack(&mut self) {
+    fn insert(&mut self, record: Record) {
+        if let Some(real) = self.real.as_mut() {
+            use ant_networking::verif_hooks::record_store as rs;
+            use ant_protocol::storage::{RecordKind, RecordType};
+            let rtype = match RecordHeader::from_record(&record).map(|h| h.kind) {
+                Ok(RecordKind::Chunk) => RecordType::Chunk,
+                Ok(RecordKind::Scratchpad) => RecordType::Scratchpad,
+                _ => RecordType::NonChunk(xor_name::XorName::from_content(&record.value)),
+            };
+            real.keys.insert(record.key.to_vec());
+            let _ = rs::put_verified(&mut real.store, record, rtype);
+            return;
+        }
+        let listed = self.store.get(record.key.as_ref()).map(|s| s.listed).unwrap_or(false);
+        self.store.insert(record.key.to_vec(), Slot { value: record.value, listed });
+    }
+
+    fn listed(&self, k: &[u8]) -> bool {
+        match &self.real {
+            Some(real) => ant_networking::verif_hooks::record_store::contains(&real.store, &libp2p::kad::RecordKey::new(&k)),
+            None => self.store.get(k).map(|s| s.listed).unwrap_or(false),
+        }
+    }
+
+    /// relay the pending disk-write acknowledgements
+    async fn ack(&mut self) {
+        if let Some(real) = self.real.as_mut() {
+            use ant_networking::verif_hooks::record_store as rs;
+            use ant_networking::verif_hooks::record_store::KadRecordStore;
+            let mut idle = 0;
+            while idle < 6 {
+                tokio::task::yield_now().await;
+                let mut got = false;
+                while let Ok(cmd) = real.ack_rx.try_recv() {
+                    got = true;
+                    match cmd {
+                        LocalSwarmCmd::AddLocalRecordAsStored { key, record_type } => rs::mark_as_stored(&mut real.store, key, record_type),
+                        LocalSwarmCmd::RemoveFailedLocalRecord { key } => real.store.remove(&key),
+                        _ => {}
+                    }
+                }
+                idle = if got { 0 } else { idle + 1 };
+            }
+            return;
+        }
         for s in self.store.values_mut() {
             s.listed = true;
         }
     }
 
     fn get(&self, k: &[u8]) -> Option<Record> {
+        if let Some(real) = &self.real {
+            use ant_networking::verif_hooks::record_store::KadRecordStore;
+            return real.store.get(&libp2p::kad::RecordKey::new(&k)).map(|r| r.into_owned());
+        }
         self.store.get(k).map(|s| build::record(libp2p::kad::RecordKey::new(&k), s.value.clone()))
     }
 
     fn dump(&self) -> Value {
+        if let Some(real) = &self.real {
+            // read back what the real store serves for every key this case ever touched
+            let mut keys: std::collections::BTreeSet<Vec<u8>> = real.keys.clone();
+            keys.extend(self.reg.keys.keys().cloned());
+            return Value::Array(
+                keys.iter()
+                    .filter_map(|k| {
+                        let got = self.get(k);
+                        let listed = self.listed(k);
+                        if got.is_none() && !listed {
+                            return None;
+                        }
+                        Some(json!({"key": build::key_name(&self.reg, k), "key_hex": hex::encode(k),
+                                    "val": got.map(|r| build::describe(&self.reg, &r.value)).unwrap_or(json!({"t": "unreadable"})),
+                                    "listed": listed}))
+                    })
+                    .collect(),
+            );
+        }
         Value::Array(
             self.store
                 .iter()
@@ -179,7 +266,7 @@ fn on_local_cmd(w: &mut World, d: &mut Delivery, cmd: LocalSwarmCmd, background:
     match cmd {
         LocalSwarmCmd::RecordStoreHasKey { key, sender } => {
             if background {
-                let _ = sender.send(w.store.get(key.as_ref()).map(|s| s.listed).unwrap_or(false));
+                let _ = sender.send(w.listed(key.as_ref()));
                 return false;
             }
             d.pending = Some(Pending::HasKey(key.to_vec(), sender));
@@ -261,7 +348,7 @@ async fn advance(
     stub.configure(d.chain.clone());
     match d.pending.take() {
         Some(Pending::HasKey(k, s)) => {
-            let listed = w.store.get(&k).map(|x| x.listed).unwrap_or(false);
+            let listed = w.listed(&k);
             d.steps.push(json!({"has_key": build::key_name(&w.reg, &k), "answer": listed}));
             let _ = s.send(listed);
         }
@@ -301,6 +388,7 @@ async fn advance(
         }
     }
     d.rpc_calls.extend(stub.take_calls());
+    d.rpc_tags.extend(stub.take_tags());
 }
 
 pub fn run_case(case: &Value, stub: &Stub) -> Value {
@@ -316,7 +404,27 @@ pub fn run_case(case: &Value, stub: &Stub) -> Value {
 }
 
 async fn run_case_async(case: &Value, stub: &Stub) -> Value {
-    let mut w = World { reg: Registry::default(), store: BTreeMap::new(), closest: vec![] };
+    let mut w = World { reg: Registry::default(), store: BTreeMap::new(), closest: vec![], real: None };
+    if case.get("realstore").and_then(|b| b.as_bool()).unwrap_or(false) {
+        let dir = std::env::temp_dir().join(format!(
+            "verif-c07-{}-{}",
+            std::process::id(),
+            SystemTime::now().duration_since(SystemTime::UNIX_EPOCH).unwrap().as_nanos()
+        ));
+        std::fs::create_dir_all(&dir).expect("temp dir");
+        let (ev_tx, ev_rx) = mpsc::channel::<ant_networking::NetworkEvent>(10_000);
+        let (ack_tx, ack_rx) = mpsc::channel::<LocalSwarmCmd>(10_000);
+        let mut cfg = ant_networking::verif_hooks::NodeRecordStoreConfig::default();
+        cfg.storage_dir = dir.clone();
+        cfg.historic_quote_dir = dir.clone();
+        cfg.encryption_seed = [7u8; 16];
+        if let Some(n) = case.get("cache").and_then(|c| c.as_u64()) {
+            cfg.records_cache_size = n as usize;
+        }
+        let store = ant_networking::verif_hooks::record_store::new_node_store(build::peer_id(0), cfg, ev_tx, ack_tx);
+        w.real = Some(Real { store, ack_rx, _ev_rx: ev_rx, dir, keys: Default::default() });
+        w.ack().await;
+    }
     for p in case["closest"].as_array().cloned().unwrap_or_default() {
         w.closest.push(build::peer_id(p.as_i64().unwrap()));
     }
@@ -331,7 +439,12 @@ async fn run_case_async(case: &Value, stub: &Stub) -> Value {
             _ => s["hdr"].as_i64().unwrap_or(1),
         };
         let v = build::value(&mut w.reg, hdr, &s["obj"], &None);
-        w.store.insert(k.to_vec(), Slot { value: v, listed: s.get("listed").and_then(|b| b.as_bool()).unwrap_or(true) });
+        if w.real.is_some() {
+            w.insert(build::record(k.clone(), v));
+            w.ack().await;
+        } else {
+            w.store.insert(k.to_vec(), Slot { value: v, listed: s.get("listed").and_then(|b| b.as_bool()).unwrap_or(true) });
+        }
     }
     let store_before = w.dump();
 
@@ -374,6 +487,7 @@ async fn run_case_async(case: &Value, stub: &Stub) -> Value {
             replicate_started: 0,
             chain: chain_cfg(&spec["chain"]),
             rpc_calls: vec![],
+            rpc_tags: vec![],
             store_at_start: None,
             store_after: None,
         });
@@ -413,7 +527,7 @@ async fn run_case_async(case: &Value, stub: &Stub) -> Value {
                     trace.push(json!({"adv": i, "steps": ds[i].steps[before..].to_vec(), "done": ds[i].result}));
                 }
             } else {
-                w.ack();
+                w.ack().await;
                 trace.push(json!("ack"));
             }
         }
@@ -428,7 +542,7 @@ async fn run_case_async(case: &Value, stub: &Stub) -> Value {
         }
         w.flush(&mut ds[i]);
         collect_events(i, &mut events_rx, &w.reg);
-        w.ack();
+        w.ack().await;
         if ds[i].store_after.is_none() {
             ds[i].store_after = Some(w.dump());
         }
@@ -446,11 +560,17 @@ async fn run_case_async(case: &Value, stub: &Stub) -> Value {
             json!({
                 "res": d.result, "err": d.err_text, "steps": d.steps, "puts": d.puts,
                 "payment_received": d.payment_received, "fetch_completed": d.fetch_completed,
-                "replicate_started": d.replicate_started, "rpc_calls": known_hashes,
+                "replicate_started": d.replicate_started, "rpc_calls": known_hashes, "rpc_tags": d.rpc_tags,
                 "events": events_by_delivery[i],
                 "store_at_start": d.store_at_start, "store_after": d.store_after,
             })
         })
         .collect();
-    json!({"results": results, "store_before": store_before, "store": w.dump(), "trace": trace})
+    let out = json!({"results": results, "store_before": store_before, "store": w.dump(), "trace": trace});
+    if let Some(real) = w.real.take() {
+        let dir = real.dir.clone();
+        drop(real);
+        let _ = std::fs::remove_dir_all(&dir);
+    }
+    out
 }
